@@ -15,6 +15,11 @@ CHECKS = {
     text="TLC checks exhaustively (bounded filters/subscribers) that the code-shaped trie (node map, recursive lookups, share pick, pruning) equals the declarative matching relation of the property; every edge of an exported state graph is then executed on the real message.Trie (both matchers) and the recorded lookups / Count / node count are validated by TLC against the spec.",
     note="Bounds: 2 literals + '+' + '#', share groups, 2-3 subscribers, depth<=2 (quick) / 3 (thorough), |S|<=3. Hash distinctness of the words is checked. Concurrency clause: lock discipline is modelled as atomic operations (every operation holds Trie's RWMutex); concurrent callers are exercised in the thorough tier by linearizability trace validation.",
     ref="4.1, 5/C01"),
+ "C04": dict(
+    level="model_checking", technique="TLA+ spec Crdt.tla model-checked with TLC (3 replicas, duplication/reordering/relay); TLC-generated behaviours replayed on Volatile/Durable/State; recorded traces validated by TLC (Crdt_Trace)",
+    text="TLC checks exhaustively (3 replicas, 2 keys, bounded times/ops/payloads) that every replica's state is the join of the updates it has seen, so equal update sets give equal entries and activeness whatever the order, duplication, grouping (single op, delta, snapshot) or relaying; the join/delta laws are checked over all value pairs. Every edge of a small exported state graph plus simulated long behaviours are executed on five real implementations (Volatile in-process with shared payload objects, Volatile with codec hop, Durable disk+memory, State volatile and durable with Encode/DecodeState per hop) and the values of Get/Has/Range on every replica after every step are validated by TLC.",
+    note="Bounds: times 1..3, 2 keys (thorough also 3 subsets), 3 replicas. crdt.Now driven by the model clock. Entry payload bytes are not compared. Durable tombstone expiry (6 h) is outside a behaviour's horizon.",
+    ref="4.3, 5/C04"),
 }
 
 NOT_YET = "check not built yet in this session (planned, see DESIGN.md section 5); not claimed until its machinery exists"
